@@ -733,7 +733,8 @@ func newTextRule(c Cmd) (Outcome, string, string, string) {
 		title = *c.Title
 		if c.Body != nil {
 			if blank(*c.Body) {
-				return MustFail, "blank body", "", ""
+				// the manuals say "omit if empty" but do not promise a rejection
+				return Either, "blank body", title, *c.Body
 			}
 			body = *c.Body
 		}
@@ -871,7 +872,7 @@ func (m *Model) predictSet(c Cmd) Pred {
 			return fail("C10", "blank title")
 		}
 		if body != nil && blank(*body) {
-			return fail("C10", "blank body")
+			weaken(Either, "blank body")
 		}
 	}
 	if (rp == nil) != (rs == nil) {
